@@ -27,6 +27,8 @@ F = "DecFileParser.print_decay_modes"
 def run(ctx, ss):
     for r, f in (("C16.1", c16_1), ("C16.3", c16_3), ("C16.4", c16_4), ("C16.5", c16_5), ("C16.6", c16_6), ("C16.7", c16_7), ("C16.8", c16_8), ("C16.3", c16_9)):
         ctx.guard(r, f, ss)
+    from .c01 import details_fields
+    ctx.guard("C16.9", details_fields, ss, "C16.9")
 
 
 def _norm_name(ff, flow):
